@@ -1,15 +1,17 @@
 #!/bin/bash
-# usage: tools/try_mutant.sh <seeded-dir> <property> [tier]  -- applies the patch to /repo, runs the check, always reverts
+# usage: tools/try_mutant.sh <seeded-dir> <property> [tier]
+# Applies the seeded patch to a scratch worktree of /repo (so that background runs against /repo itself are not disturbed),
+# runs the check against it (VERIF_REPO), removes the worktree.  Equivalent to: git -C /repo apply <patch>; ./check ...; git -C /repo checkout -- .
 d=$(realpath $1); p=$2; t=${3:-quick}
-cd /repo || exit 2
-if ! git diff --quiet; then echo "/repo has uncommitted changes"; exit 2; fi
-git apply "$d/patch.diff" || { echo "patch does not apply"; exit 2; }
+wt=/var/tmp/mutrepo-$$
+git -C /repo worktree add -q --detach $wt HEAD || exit 2
+( cd $wt && git apply "$d/patch.diff" ) || { echo "patch does not apply"; git -C /repo worktree remove --force $wt; exit 2; }
 cd /verif
-VERIF_NO_EVIDENCE_KEEP=1 ./check $p $t > /var/tmp/mutant-$p.out 2>&1
+cp evidence/$p.json /var/tmp/evidence-$p-$$.json 2>/dev/null
+VERIF_REPO=$wt ./check $p $t > /var/tmp/mutant-$p.out 2>&1
 rc=$?
-git -C /repo checkout -- .
+git -C /repo worktree remove --force $wt
 cut -c1-300 /var/tmp/mutant-$p.out | grep -v "^\[build\]" | tail -${LINES_OUT:-12}
 echo "exit=$rc"
-# restore evidence of the unchanged tree from git if tracked
-git -C /verif checkout -- evidence/$p.json 2>/dev/null
+cp /var/tmp/evidence-$p-$$.json evidence/$p.json 2>/dev/null; rm -f /var/tmp/evidence-$p-$$.json
 exit 0
